@@ -167,14 +167,22 @@ def mechHeaders (h : Headers) (r : Req) : Headers :=
 
 /-! ### proxy: headers of the forwarded family sent to the upstream -/
 
+/-- `strings.Join(values, ", ")` -/
+def joinList : List String → String
+  | [] => ""
+  | [v] => v
+  | v :: vs => v ++ ", " ++ joinList vs
+
 /-- headers of the outgoing request as far as they stem from the incoming ones and from rewriteRequest
-    (hop-by-hop removal and pipeline headers are not part of this model) -/
+    (hop-by-hop removal and pipeline headers are not part of this model).  `X-Forwarded-For` and `Forwarded` are
+    lists: **all** received lines, joined in order of arrival, are extended by the real connection;
+    `X-Forwarded-Proto` / `-Host` are single values (first line). -/
 def upstreamHeaders (h : Headers) (r : Req) : Headers :=
   let out := strip outDel (strip rpStripped h)
   let fh := hget h "X-Forwarded-Host"
   let fp := hget h "X-Forwarded-Proto"
-  let ff := hget h "X-Forwarded-For"
-  let fw := hget h "Forwarded"
+  let ff := joinList (hvalues h "X-Forwarded-For")
+  let fw := joinList (hvalues h "Forwarded")
   let ip := ipFromHostPort r.remoteAddr
   if ff ≠ "" || fp ≠ "" || fh ≠ "" then
     hset (hset (hset out "X-Forwarded-For" (if ff = "" then ip else ff ++ ", " ++ ip))
